@@ -556,9 +556,14 @@ impl<T: PPGEvaluatorStrategy> PPGEvaluator<T> {
         key_edge(self.jobs@[a as int].job_id@, self.jobs@[b as int].job_id@)
     }
 
-    /// C08/C09: the record of a dependency into a job that did not succeed is left as it was
+    /// C08: the record of a dependency into a failed / aborted job is left as it was
     spec fn edge_c08(&self, out2: Map<String, String>, out: Map<String, String>, a: usize, b: usize) -> bool {
-        !second_success(self.jobs@[b as int]) ==> same_at(out2, out, str_of(self.edge_key(a, b)))
+        !second_success(self.jobs@[b as int]) && !keeps_records(self.jobs@[b as int].state) ==> same_at(out2, out, str_of(self.edge_key(a, b)))
+    }
+
+    /// C09: the record of a dependency into an upstream-failed job is left as it was
+    spec fn edge_c09(&self, out2: Map<String, String>, out: Map<String, String>, a: usize, b: usize) -> bool {
+        !second_success(self.jobs@[b as int]) && keeps_records(self.jobs@[b as int].state) ==> same_at(out2, out, str_of(self.edge_key(a, b)))
     }
 
     /// C11: the record of a dependency into a successful job is the upstream's current output
@@ -569,7 +574,7 @@ impl<T: PPGEvaluatorStrategy> PPGEvaluator<T> {
     }
 
     spec fn edge_rec_ok(&self, out2: Map<String, String>, out: Map<String, String>, a: usize, b: usize) -> bool {
-        self.edge_c08(out2, out, a, b) && self.edge_c11(out, a, b)
+        self.edge_c08(out2, out, a, b) && self.edge_c09(out2, out, a, b) && self.edge_c11(out, a, b)
     }
 
     spec fn not_edge_key(&self, k: String, es: Seq<(usize, usize, &EdgeInfo)>, upto: int) -> bool {
@@ -1460,6 +1465,12 @@ spec fn sig_posts(sigs: Seq<Signal>, upto: int, jobs: Seq<NodeInfo>) -> bool {
     forall|k: int| 0 <= k < upto ==> sig_post(#[trigger] sigs[k], jobs)
 }
 
+/// the same, restricted to the signals of one kind (so that a failing handler implicates only the
+/// properties that speak about that kind of event)
+spec fn sig_posts_of(kind: SignalKind, sigs: Seq<Signal>, upto: int, jobs: Seq<NodeInfo>) -> bool {
+    forall|k: int| 0 <= k < upto && (#[trigger] sigs[k]).kind == kind ==> sig_post(sigs[k], jobs)
+}
+
 proof fn lemma_sig_posts_step(sigs: Seq<Signal>, upto: int, a: Seq<NodeInfo>, b: Seq<NodeInfo>)
     requires sig_posts(sigs, upto, a), jobs_step(a, b), 0 <= upto <= sigs.len(),
         forall|k: int| 0 <= k < sigs.len() ==> (#[trigger] sigs[k]).node_idx < a.len(),
@@ -1648,4 +1659,35 @@ spec fn startup_state(s: JobState, changed: bool, present: bool, own_record: boo
 spec fn topo_ok(topo: Option<Vec<usize>>, dag: &GraphType) -> bool {
     topo is Some && topo.unwrap()@.no_duplicates()
         && forall|m: usize| #![trigger topo.unwrap()@.contains(m)] topo.unwrap()@.contains(m) <==> dag.nodes_set().contains(m)
+}
+
+/// C07: a pending "your upstream failed" notification for node d
+spec fn has_upfail_signal(s: Seq<Signal>, d: usize) -> bool {
+    exists|k: int| 0 <= k < s.len() && (#[trigger] s[k]).kind == SignalKind::JobUpstreamFailure && s[k].node_idx == d
+}
+
+proof fn lemma_upfail_push(s: Seq<Signal>, x: Signal, d: usize)
+    ensures
+        has_upfail_signal(s, d) ==> has_upfail_signal(s.push(x), d),
+        x.kind == SignalKind::JobUpstreamFailure && x.node_idx == d ==> has_upfail_signal(s.push(x), d),
+{
+    if has_upfail_signal(s, d) {
+        let k = choose|k: int| 0 <= k < s.len() && (#[trigger] s[k]).kind == SignalKind::JobUpstreamFailure && s[k].node_idx == d;
+        assert(s.push(x)[k] == s[k]);
+    }
+    if x.kind == SignalKind::JobUpstreamFailure && x.node_idx == d {
+        assert(s.push(x)[s.len() as int] == x);
+    }
+}
+
+/// remove_consider_signals keeps every notification
+proof fn lemma_upfail_kept(a: Seq<Signal>, b: Seq<Signal>, d: usize)
+    requires has_upfail_signal(a, d),
+        forall|k: int| 0 <= k < a.len() && (#[trigger] a[k]).kind != SignalKind::ConsiderJob ==> b.contains(a[k]),
+    ensures has_upfail_signal(b, d),
+{
+    let k = choose|k: int| 0 <= k < a.len() && (#[trigger] a[k]).kind == SignalKind::JobUpstreamFailure && a[k].node_idx == d;
+    assert(b.contains(a[k]));
+    let q = choose|q: int| 0 <= q < b.len() && b[q] == a[k];
+    assert(b[q].kind == SignalKind::JobUpstreamFailure && b[q].node_idx == d);
 }
